@@ -133,11 +133,30 @@ def run(ctx: Ctx, tier: str) -> Result:
     rt = p.cls(TIMER)
     rinit = rt.lookup("__init__")
     ist = [(sf, v) for sf, v, _ in t.field_stores(rt, "interval")]
-    if ist and all(sf is rinit and (isinstance(v, ast.Name) and v.id in rinit.params or (isinstance(v, ast.Call) and norm(v.func) == "float" and len(v.args) == 1
-                                                                                          and isinstance(v.args[0], ast.Name) and v.args[0].id in rinit.params)) for sf, v in ist):
+    def keeps(e, f, pn, depth=0):
+        """e is the value of parameter pn of f as given, at most made a float"""
+        if depth > 4 or e is None:
+            return False
+        if isinstance(e, ast.Name):
+            if e.id == pn:
+                return True
+            bs_ = [b for k_, b in t.local_bindings(f, e.id)]
+            return bool(bs_) and all(isinstance(b, tuple) and b[2] is None and keeps(b[1], f, pn, depth + 1) for b in bs_)
+        if isinstance(e, ast.Call) and norm(e.func) == "float" and len(e.args) == 1:
+            return keeps(e.args[0], f, pn, depth + 1)
+        if isinstance(e, ast.Call):
+            tg_ = t.resolve_call(e, f)
+            if len(tg_.repo) == 1 and not tg_.ext:
+                h_ = tg_.repo[0]
+                q = [qn for qn, a_ in t.bind_args(h_, e).items() if keeps(a_, f, pn, depth + 1)]
+                rets_ = [r for r in t.nodes_in(h_, ast.Return)]
+                return len(q) >= 1 and bool(rets_) and all(r.value is not None and any(keeps(r.value, h_, qn, depth + 1) for qn in q) for r in rets_)
+        return False
+    ipar = [pn for pn in rinit.params if pn == "interval"] or rinit.params[2:3]
+    if ist and ipar and all(sf is rinit and keeps(v, rinit, ipar[0]) for sf, v in ist):
         res.ok("C12.LOOP", {"timer interval stored as given": norm(ist[0][1])})
     else:
-        bad_ = next(((sf, v) for sf, v in ist if not (sf is rinit and isinstance(v, ast.Name))), None)
+        bad_ = next(((sf, v) for sf, v in ist if not (sf is rinit and ipar and keeps(v, rinit, ipar[0]))), None)
         res.fail(Finding("C12.LOOP", (bad_[0] if bad_ else rinit).qname, bad_[1] if bad_ else "<self.interval = interval>", (bad_[0] if bad_ else rinit).loc(bad_[1]) if bad_ else rinit.loc(),
                          "the timer does not keep the interval it was given (`%s`): a fractional interval is cut (0.25 -> 0: the wait computation divides by it and the poll "
                          "thread ends before its first poll), or the interval changes while the timer runs" % (norm(bad_[1])[:50] if bad_ else "no store")))
